@@ -108,6 +108,13 @@ def call(f, cols):
             r = [r]
         for j, rj in enumerate(r):
             outs[j][:, k] = np.array(rj).ravel(order="F")
+    from harness import cas as _cas       # results appended to an exported function: callers unpack the pinned interface
+    nm = f.name()
+    for k_, v_ in (_cas.IFACE or {}).items():
+        if (k_ == nm or k_.endswith(":" + nm)) and len(v_["in"]) == f.n_in() and len(v_["out"]) < f.n_out() \
+                and [f.name_out(j) for j in range(len(v_["out"]))] == list(v_["out"]):
+            _cas.APPENDED.add(nm)
+            return outs[:len(v_["out"])]
     return outs
 
 
@@ -712,7 +719,7 @@ def random_recursions(ctx, nruns, nsteps, only=None):
             big = rng.random() < 0.05
             dt = float(rng.choice([0.001, 0.004, 0.01, 0.02, 0.1, 1.0]))
             om, omr = rng.normal(0, 3, 3), rng.normal(0, 3 if not big else 1e6, 3)
-            M, i1, e1, de1, al = [np.array(x).ravel() for x in F.rate(kp, ki, kd, fcut, lim, om, omr, i0, e0, de0, dt)]
+            M, i1, e1, de1, al = [np.array(x).ravel() for x in F.rate(kp, ki, kd, fcut, lim, om, omr, i0, e0, de0, dt)][:5]
             if not (np.all(np.isfinite(i1)) and np.all(np.abs(i1) <= lim)):
                 run.violation("attitude_rate_control/i_bound", "integrator output leaves [-i_max, i_max] (random recursion)",
                               {"kind": "random", "run": r, "step": t, "i_max": lim.tolist(), "i0": i0.tolist(), "i1": i1.tolist(),
@@ -727,7 +734,7 @@ def random_recursions(ctx, nruns, nsteps, only=None):
             p, v = rng.normal(0, 2, 3), rng.normal(0, 1, 3)
             yaw = float(rng.uniform(-3, 3))
             qc = np.array([math.cos(yaw / 2), 0, 0, math.sin(yaw / 2)])
-            nT, qr, z2 = fpos(F.m * F.g, pt, vt, at, qc, p, v, z, dt)
+            nT, qr, z2 = fpos(F.m * F.g, pt, vt, at, qc, p, v, z, dt)[:3]
             nT0 = float(fpos(0.0, pt, vt, at, qc, p, v, 0.0, dt)[0])
             z2 = float(z2)
             if not (math.isfinite(z2) and abs(z2) <= zmax_u * I_U):
